@@ -44,12 +44,16 @@ type groupReg struct {
 func groupWorld(r *R) {
 	nreg := 1 + r.Choose(4, "regs")
 	settled := r.Choose(3, "settled") != 2
-	parentCancel := r.Choose(5, "parent-cancel") == 4
+	parentKind := r.Choose(6, "parent-kind") // 4: the parent context is cancelled by a party; 5: it has a deadline of its own
+	parentCancel := parentKind >= 4
 	stopMode := r.Choose(3, "stopmode") // 0 StopAndWait, 1 Stop then StopAndWait, 2 StopAndWait twice (second from another task)
 	root := NewCtx(nil, "root")
 	parent := root
-	if parentCancel {
+	if parentKind == 4 {
 		parent = NewCtx(root, "parent")
+	} else if parentKind == 5 {
+		parent = NewDeadlineCtx(root, "parent", []time.Duration{time.Nanosecond, 37 * time.Millisecond, 151 * time.Millisecond}[r.Choose(3, "parent-deadline")])
+		r.Fault("parent_deadline")
 	}
 	g := xsync.NewGroup(parent.C)
 	strict := r.Cfg.StallPer1k == 0 && r.Cfg.LatePer1k == 0
@@ -203,7 +207,7 @@ func groupWorld(r *R) {
 			}
 		})
 	}
-	if parentCancel {
+	if parentKind == 4 {
 		spin := r.Choose(10, "pc-spin")
 		sleep := time.Duration(r.Choose(10, "pc-sleep")) * 29 * time.Millisecond
 		sim.GoNamed("parent-canceller", func() {
